@@ -226,8 +226,23 @@ def py_facts():
             lhs = pyfront.unparse(c.left)
             facts["tree_child"] = (op, facts.get("_tree")) + (() if lhs == "child.size" else ("compares " + lhs,))
             facts["leaf_child"] = (op, facts.get("_leaf")) + (() if lhs == "child.size" else ("compares " + lhs,))
+    def _is_len_of_data(e, fn):
+        """len(self._data) or len(<local / parameter standing for the node's data list>)"""
+        if not (isinstance(e, ast.Call) and isinstance(e.func, ast.Name) and e.func.id == "len" and e.args):
+            return False
+        a = e.args[0]
+        if pyfront.unparse(a) == "self._data":
+            return True
+        if isinstance(a, ast.Name):
+            for st in ast.walk(fn):
+                if isinstance(st, ast.Assign) and any(isinstance(t, ast.Name) and t.id == a.id for t in st.targets) \
+                        and pyfront.unparse(st.value) == "self._data":
+                    return True
+            if a.id in [x.arg for x in fn.args.args] and a.id in ("data",):
+                return True
+        return False
     for c in ast.walk(g):
-        if isinstance(c, ast.Compare) and pyfront.unparse(c.left) == "len(self._data)":
+        if isinstance(c, ast.Compare) and _is_len_of_data(c.left, g):
             op = {ast.Gt: ">", ast.GtE: ">=", ast.Lt: "<", ast.LtE: "<="}.get(type(c.ops[0]))
             r = c.comparators[0]
             if isinstance(r, ast.BinOp) and isinstance(r.op, ast.Mult):
@@ -239,15 +254,38 @@ def py_facts():
         raise AnalysisError("unrecognised idiom: size tests of _Tree._set/_grow")
     sp = {}
     for kind, cname in (("Bucket", "Bucket"), ("Set", "Set"), ("Tree", "_Tree")):
-        f = pyfront.class_members(cls[cname]).get("_split")
+        f = None
+        seen_c = set()
+        todo = [cname]
+        while todo and f is None:          # the method may live in a base class
+            cn = todo.pop(0)
+            if cn in seen_c or cn not in cls:
+                continue
+            seen_c.add(cn)
+            m = pyfront.class_members(cls[cn]).get("_split")
+            if isinstance(m, ast.FunctionDef):
+                f = m
+            todo.extend(b.id for b in cls[cn].bases if isinstance(b, ast.Name))
         if not isinstance(f, ast.FunctionDef):
             raise AnalysisError("anchor vanished: %s._split" % cname)
+        # a _split that delegates the cut to a base class's _split: the split point is decided there
+        for hop in range(3):
+            dele = [c for c in ast.walk(f) if isinstance(c, ast.Call) and isinstance(c.func, ast.Attribute)
+                    and c.func.attr == "_split" and isinstance(c.func.value, ast.Name) and c.func.value.id in cls
+                    and c.args and pyfront.unparse(c.args[0]) == "self"]
+            if not dele:
+                break
+            m = pyfront.class_members(cls[dele[0].func.value.id]).get("_split")
+            if not isinstance(m, ast.FunctionDef) or m is f:
+                break
+            f = m
         pt = None
         for a in ast.walk(f):
             if isinstance(a, ast.Assign) and pyfront.unparse(a.targets[0]) == "index":
                 pt = pyfront.unparse(a.value).replace(" ", "")
-        sp[cname + "._split"] = "len/2" if pt in ("len(self._keys)//2", "len(data)//2",
-                                                   "len(self._data)//2") else pt
+        import re as _re
+        sp[cname + "._split"] = "len/2" if pt and _re.match(
+            r"^len\((self\._keys|self\._data|data|keys)\)//2$", pt) else pt
     facts["split_point"] = sp
     facts.pop("_tree", None)
     facts.pop("_leaf", None)
